@@ -32,8 +32,8 @@ def stats_from_history(desc, hist, extra_fired=None):
         st["interleavings"].append(il)
         if rec.rt.max_inflight >= 2 or sim.preemptions >= 1:
             st["nontrivial_keys"].append(wd + ":" + il)
-        executed = sorted({ev[4] for ev in rec.events if ev[3] == "call-start"})
-        failed = sorted({ev[4] for ev in rec.events if ev[3] == "call-end" and ev[6] != "ok"})
+        executed = sorted({ev[4] for ev in rec.events if ev[3] == "call-start"}, key=repr)
+        failed = sorted({ev[4] for ev in rec.events if ev[3] == "call-end" and ev[6] != "ok"}, key=repr)
         st["states"].append(hashlib.sha256(repr((wd, executed, failed)).encode()).hexdigest()[:12])
     st["grans"].append(desc.get("sched", {}).get("gran", "-"))
     st["vtime"] = hist.disk.now
